@@ -8,6 +8,7 @@ import IcingaProofs.Gen.Precedence
 import IcingaProofs.C15.Lemmas
 import IcingaProofs.C15.OpTable
 import IcingaProofs.C15.WfNatives
+import IcingaProofs.C15.Round3
 
 namespace Icinga.C15.Proofs
 
@@ -182,7 +183,189 @@ example : opTable .add .emptyStr .empty = .val .string ∧ opTable .add .empty .
     opTable .div .num .empty = .divErr ∧ opTable .add .bool .num = .typeErr ∧ opTable .eq .bool .num = .val .boolean ∧
     opTable .add .arr .empty = .newArray ∧ opTable .lt .arr .arr = .deepCmp ∧ opTable .le .arr .arr = .typeErr := by decide
 
+/-! ### round 3: fresh containers, flow control, call scoping -/
+
+/-- **An array literal yields a NEW array on every evaluation**: whatever the elements, frame, state and fuel, the address
+    answered by `[ … ]` was not allocated before the evaluation started. -/
+theorem array_literal_creates_new_container (fuel : Nat) (fr : Frame N) (es : List (Expr N)) (st st' : State N) (a : Addr)
+    (hs : HeapOk st) (hf : FrOk st fr)
+    (h : eval fuel fr (.expr (.array es)) st = (.val .ok (.arr a), st')) : kindAt st a = none ∧ kindAt st' a = some .arr := by
+  cases fuel with
+  | zero => simp [eval] at h
+  | succ f =>
+    simp only [eval, stepExpr] at h
+    split at h
+    · simp at h
+    · simp only [stepNode] at h
+      have hw := eval_wf (N := N) natives_wf f { fr with depth := fr.depth + 1 } (.exprs es []) (st.noteDepth (fr.depth + 1))
+        (heapOk_nd hs _) hf (vsOk_nil _)
+      have hno := exprs_not_ok f { fr with depth := fr.depth + 1 } es [] (st.noteDepth (fr.depth + 1)) (.arr a)
+      generalize eval f { fr with depth := fr.depth + 1 } (.exprs es []) (st.noteDepth (fr.depth + 1)) = r at h hw hno
+      obtain ⟨o, st1⟩ := r
+      cases o <;> simp [bindVals, liftE, newArr, State.alloc] at h
+      · exact absurd (by rw [h.1.1, h.1.2]) hno
+      · obtain ⟨ha, hst⟩ := h
+        have hsz := ext_size hw.2.1
+        subst ha
+        subst hst
+        refine ⟨kindAt_ge _ _ (by simpa [State.noteDepth] using hsz), ?_⟩
+        simp [kindAt, kindOf]
+
+/-- … and so does a dictionary literal `{ … }`: its address is allocated before the body runs and was free before. -/
+theorem dict_literal_creates_new_container (fuel : Nat) (fr : Frame N) (body : List (Expr N)) (st st' : State N) (a : Addr)
+    (h : eval fuel fr (.expr (.dict body)) st = (.val .ok (.dict a), st')) : kindAt st a = none := by
+  cases fuel with
+  | zero => simp [eval] at h
+  | succ f =>
+    simp only [eval, stepExpr] at h
+    split at h
+    · simp at h
+    · simp only [stepNode] at h
+      generalize eval f _ (.block body .empty) _ = r at h
+      obtain ⟨o, st1⟩ := r
+      cases o with
+      | val c w =>
+        cases c <;> simp [bindV, State.alloc, State.noteDepth] at h
+        · rw [← h.1]; exact kindAt_ge _ _ (Nat.le_refl _)
+      | _ => simp [bindV] at h
+
+
+/-! ### flow control -/
+
+/-- **try/except forwards flow control**: `return`/`break`/`continue` executed in the try body OR in the except handler leave the
+    construct with their code and value (CHECK_RESULT on both, expression.cpp:1062-1066) — for every body, handler, frame, state. -/
+theorem try_forwards_flow_control (f : Nat) (fr : Frame N) (a b : Expr N) (st st1 st2 : State N) (c : Ctl) (v : Value N)
+    (k : ErrKind) (m : String) (hd : ¬ (fr.depth + 1 > depthLimit)) (hc : c ≠ .ok) :
+    (eval f { fr with depth := fr.depth + 1 } (.expr a) (st.noteDepth (fr.depth + 1)) = (.val c v, st1) →
+      eval (f + 1) fr (.expr (.try a b)) st = (.val c v, st1)) ∧
+    (eval f { fr with depth := fr.depth + 1 } (.expr a) (st.noteDepth (fr.depth + 1)) = (.err (.script k m), st1) →
+      eval f { fr with depth := fr.depth + 1 } (.expr b) st1 = (.val c v, st2) →
+      eval (f + 1) fr (.expr (.try a b)) st = (.val c v, st2)) := by
+  constructor
+  · intro ha
+    cases c <;> simp_all [eval, stepExpr, stepNode, catchScript]
+  · intro ha hb
+    cases c <;> simp_all [eval, stepExpr, stepNode, catchScript, bindV]
+
+/-- `for (k in array)`: the same three rules as `while` (vmops.hpp:185-189, CHECK_RESULT_LOOP). -/
+theorem loop_control_for (f : Nat) (fr : Frame N) (k : String) (a : Addr) (i : Nat) (body : Expr N) (st st2 : State N)
+    (xs : List (Value N)) (v : Value N) (ha : st.arr? a = some xs) (hi : i < xs.length) :
+    (eval f fr (.expr body) (localsSet st fr k (xs.getD i .empty)) = (.val .brk v, st2) →
+      eval (f + 1) fr (.forArr k a i body) st = (.val .ok .empty, st2)) ∧
+    (eval f fr (.expr body) (localsSet st fr k (xs.getD i .empty)) = (.val .ret v, st2) →
+      eval (f + 1) fr (.forArr k a i body) st = (.val .ret v, st2)) ∧
+    (eval f fr (.expr body) (localsSet st fr k (xs.getD i .empty)) = (.val .cont v, st2) →
+      eval (f + 1) fr (.forArr k a i body) st = eval f fr (.forArr k a (i + 1) body) st2) := by
+  have hi' : ¬ (i ≥ xs.length) := by omega
+  refine ⟨?_, ?_, ?_⟩ <;> intro hb <;> simp only [List.getD_eq_getElem?_getD] at hb <;> simp [eval, stepForArr, ha, hi', hb, loopStep]
+
+/-- **`return` ends the enclosing function and nothing more; `break`/`continue` do not cross a function boundary**: whatever
+    code the body of a script function ends with, the call answers a plain value (vmops.hpp:112). -/
+theorem call_absorbs_flow_control (f : Nat) (fr : Frame N) (a : Addr) (self : Value N) (args : List (Value N)) (st st2 : State N)
+    (params : List String) (captured : List (String × Value N)) (body : Expr N) (c : Ctl) (v : Value N)
+    (hg : st.get? a = some (.fn params captured body))
+    (h : eval (f + 1) fr (.call (.fn a) self args) st = (.val c v, st2)) : c = .ok := by
+  simp only [eval, stepCall, hg] at h
+  split at h
+  · simp at h
+  · generalize eval f _ (.expr body) _ = r at h
+    obtain ⟨o, s⟩ := r
+    cases o <;> simp [bindAny] at h
+    exact h.1.1.symm
+
+/-- **A call does not see the caller's scope**: the callee starts from the captured variables and the arguments; two callers
+    at the same depth with different locals and `this` get the same answer (vmops.hpp:101-110) — for every function and body. -/
+theorem scoping_call_ignores_caller_scope (f : Nat) (fr fr' : Frame N) (hd : fr.depth = fr'.depth) (a : Addr) (self : Value N)
+    (args : List (Value N)) (st : State N) :
+    eval f fr (.call (.fn a) self args) st = eval f fr' (.call (.fn a) self args) st := by
+  cases f with
+  | zero => simp [eval]
+  | succ f => simp only [eval, stepCall, hd]
+
+/-- **map/filter/any/all iterate over a snapshot**: the elements handed to the callback are those the array holds when the method
+    is called; the iteration task carries them as a list, so nothing the callback does to the array (add, remove, clear, set) can
+    change which elements are visited (array-script.cpp:133, 176, 195, 214 after 1f98393: `self->ShallowClone()`). -/
+theorem callback_iteration_over_snapshot (f : Nat) (fr : Frame N) (name : String) (kind : IterKind) (a : Addr) (cb : Value N)
+    (rest : List (Value N)) (xs : List (Value N)) (st : State N)
+    (hk : isCallbackNative name = some kind) (hr : kind ≠ .reduce) (hcb : isFunction cb = true) (ha : st.arr? a = some xs) :
+    eval (f + 1) fr (.call (.native name) (.arr a) (cb :: rest)) st = eval f fr (.iter kind cb xs []) st := by
+  cases kind <;> simp_all [eval, stepCall]
+
+/-- **Whole trace**: for EVERY program and fuel, whatever the model answers inside the protocol (a value, a script error, the
+    recursion error) — printed as the harness prints the real evaluator's answer, for all four observations of a program (minimal
+    text, fully parenthesised text, second compilation, second evaluation of the same expression: the model is a function of the
+    AST, so all four are this one answer) — passes every clause of `Spec.checkProgram`: no crash, deterministic, deterministic for
+    one expression, parenthesisation-independent, parses, value-or-script-error.  With `total_or_error` (never an internal error)
+    the only outcomes outside the protocol are fuel exhaustion and the explicitly unmodelled cases. -/
+theorem model_trace_meets_spec (canon : State N → Value N → String) (fuel : Nat) (prog : List (Expr N)) (r : String)
+    (h : renderOut canon (run fuel prog) = some r) : Spec.checkProgram ⟨r, r, r, r⟩ = none := by
+  generalize run fuel prog = res at h
+  obtain ⟨o, st⟩ := res
+  cases o with
+  | val c v => simp [renderOut] at h; subst h; exact checkProgram_value _
+  | err e =>
+    cases e with
+    | script k m => cases k <;> simp [renderOut] at h <;> subst h <;> decide
+    | _ => simp [renderOut] at h
+  | _ => simp [renderOut] at h
+
 end
+
+/-! ## 2b. Number and duration literals -/
+
+/-- **The literal grammar `D+(.D+)?(ms|s|m|h|d)?`, every text**: the lexer model splits it into (digits, fraction length, suffix) and
+    the specification assigns it exactly digits · 10^-|fraction| · (documented factor of the suffix). -/
+theorem literal_grammar (ip fp : List Char) (s : Suffix) (hip : ip ≠ []) (hd : ∀ c ∈ ip, c.isDigit = true)
+    (hfd : ∀ c ∈ fp, c.isDigit = true) (hfp : fp ≠ []) :
+    splitLiteral (ip ++ suffixChars s) = some (digitsVal ip, 0, s) ∧
+    Spec.litExactL (ip ++ suffixChars s) = some (digitsVal ip * (docFactor s).1, (docFactor s).2) ∧
+    splitLiteral (ip ++ '.' :: (fp ++ suffixChars s)) = some (digitsVal (ip ++ fp), fp.length, s) ∧
+    Spec.litExactL (ip ++ '.' :: (fp ++ suffixChars s)) =
+      some (digitsVal (ip ++ fp) * (docFactor s).1, 10 ^ fp.length * (docFactor s).2) := by
+  have hne : ip.isEmpty = false := by cases ip <;> simp_all
+  have hfne : fp.isEmpty = false := by cases fp <;> simp_all
+  have t1 : (ip ++ suffixChars s).takeWhile Char.isDigit = ip := by
+    rw [List.takeWhile_append_of_pos hd, suffix_takeWhile]; simp
+  have d1 : (ip ++ suffixChars s).dropWhile Char.isDigit = suffixChars s := by
+    rw [List.dropWhile_append_of_pos hd, suffix_dropWhile]
+  have t2 : (ip ++ '.' :: (fp ++ suffixChars s)).takeWhile Char.isDigit = ip := by
+    rw [List.takeWhile_append_of_pos hd]; simp [List.takeWhile]
+  have d2 : (ip ++ '.' :: (fp ++ suffixChars s)).dropWhile Char.isDigit = '.' :: (fp ++ suffixChars s) := by
+    rw [List.dropWhile_append_of_pos hd]; simp [List.dropWhile]
+  have t3 : (fp ++ suffixChars s).takeWhile Char.isDigit = fp := by
+    rw [List.takeWhile_append_of_pos hfd, suffix_takeWhile]; simp
+  have d3 : (fp ++ suffixChars s).dropWhile Char.isDigit = suffixChars s := by
+    rw [List.dropWhile_append_of_pos hfd, suffix_dropWhile]
+  refine ⟨?_, ?_, ?_, ?_⟩
+  · simp only [splitLiteral, t1, d1, hne]
+    cases s <;> simp [suffixChars, suffixOf]
+  · simp only [Spec.litExactL, t1, d1, hne]
+    cases s <;> simp [suffixChars, Spec.suffixFactor, docFactor, Spec.natOfDigits, digitsVal]
+  · simp only [splitLiteral, t2, d2, hne, t3, d3, hfne, suffixOf_chars]
+    simp
+  · simp only [Spec.litExactL, t2, d2, hne, t3, d3, hfne, specFactor_chars]
+    simp [Spec.natOfDigits, digitsVal]
+
+/-- **The lexer's arithmetic is multiplication by the documented factor**: read exactly (number type `Int`), the operation sequence
+    of each lexer rule (`/ 1000`, `* 60`, `* 60 * 60`, `* 60 * 60 * 24`) maps `x` to `x · factor` (for `ms`: when 1000 divides `x`). -/
+theorem literal_scale_is_documented_factor (s : Suffix) (x : Int) (h : ((docFactor s).2 : Int) ∣ x) :
+    scaleSuffix (N := Int) s x * ((docFactor s).2 : Int) = x * ((docFactor s).1 : Int) := by
+  cases s <;> simp [scaleSuffix, docFactor, Num.mul, Num.div, Num.ofInt] at *
+  · exact Int.tdiv_mul_cancel h
+  all_goals omega
+
+/-- the literal clause accepts the documented values (also `0.1h`, whose last bit depends on the order of the multiplications)
+    and rejects a millisecond literal read as minutes, an hour literal multiplied once, a truncated fraction -/
+example : Spec.checkLiteral "500ms" 0x3fe0000000000000 = none := by decide
+example : Spec.checkLiteral "500ms" 0x40dd4c0000000000 = some "literal_value_as_documented" := by decide      -- 30000
+example : Spec.checkLiteral "2h" 0x40bc200000000000 = none := by decide                                       -- 7200
+example : Spec.checkLiteral "2h" 0x405e000000000000 = some "literal_value_as_documented" := by decide         -- 120
+example : Spec.checkLiteral "0.1h" 0x4076800000000000 = none ∧ Spec.checkLiteral "0.1h" 0x4076800000000001 = none := by decide
+example : Spec.checkLiteral "1.5" 0x3ff0000000000000 = some "literal_value_as_documented" := by decide        -- atoi
+example : Spec.checkLiteral "0" 0 = none ∧ Spec.checkLiteral "7d" 0x4122750000000000 = none := by decide      -- 604800
+/-- the lexer model on the exact instance: `2h` = 7200, `3d` = 259200, `4000ms` = 4 -/
+example : (litValue "2h" : Option Int) = some 7200 ∧ (litValue "3d" : Option Int) = some 259200 ∧ (litValue "4000ms" : Option Int) = some 4 := by decide
+
 
 /-! ## 3. Kernel-checked executions (N := Int): scoping, closures, recursion limit — also the non-vacuity witnesses -/
 
@@ -218,11 +401,19 @@ theorem array_join_counterexample :
      | (.val _ (.str s), _) => s == "1,a" | _ => false) = true := by
   decide
 
+/-! **F-C15f (repaired by 1f98393)**: Array#map/filter/any/all walked the std::vector of the array while the callback could
+    reallocate it; they now iterate over a snapshot — which is what the model always did (`callback_iteration_over_snapshot` above);
+    programs whose callbacks modify the iterated array are in the compared domain (family `cbmut`), the old witnesses are regression
+    lines of corpus/C15/fixed_c15f_callback_mutates_iterated_array.ops. -/
+
 /-- the spec predicate rejects a crash, a non-deterministic and a parenthesisation-dependent observation. -/
-example : Spec.checkProgram ⟨"crash:sig=8", "crash:sig=8", "crash:sig=8"⟩ = some "no_crash" := by decide
-example : Spec.checkProgram ⟨"v:#1", "v:#1", "v:#2"⟩ = some "deterministic" := by decide
-example : Spec.checkProgram ⟨"v:#1", "v:#2", "v:#1"⟩ = some "precedence_as_declared" := by decide
-example : Spec.checkProgram ⟨"v:#1", "v:#1", "v:#1"⟩ = none := by decide
+example : Spec.checkProgram ⟨"crash:sig=8", "crash:sig=8", "crash:sig=8", ""⟩ = some "no_crash" := by decide
+example : Spec.checkProgram ⟨"v:#1", "v:#1", "v:#2", "v:#1"⟩ = some "deterministic" := by decide
+example : Spec.checkProgram ⟨"v:#1", "v:#2", "v:#1", "v:#1"⟩ = some "precedence_as_declared" := by decide
+example : Spec.checkProgram ⟨"v:#1", "v:#1", "v:#1", "v:#1"⟩ = none := by decide
+/-- one compiled expression that answers differently the second time (a literal array built once and mutated) is rejected -/
+example : Spec.checkProgram ⟨"v:[#1,#2,#3]", "v:[#1,#2,#3]", "v:[#1,#2,#3]", "v:[#1,#2,#3,#3]"⟩ = some "deterministic_same_expression" := by decide
+example : Spec.checkProgram ⟨"v:#1", "v:#1", "v:#1", "crash:sig=11"⟩ = some "no_crash" := by decide
 
 /-- the clauses stated against the reference's answer: a recursion error although the reference nests only 40 frames, a
     `use()` closure whose calls influence each other, a raising `array - array` are rejected; a recursion error at real
@@ -235,5 +426,10 @@ example : Spec.checkAgainstReference "elif7" "v:[s6232]" (some "v:[s6230]") 9 = 
 example : Spec.checkAgainstReference "selfkeep2" "e" (some "v:[]") 9 = some "scoping_this_restored_after_error" := by decide
 example : Spec.checkAgainstReference "emptystr4" "v:[#1]" (some "v:[#0]") 9 = some "prototype_method_on_empty_string" := by decide
 example : Spec.checkAgainstReference "joinscalar1" "e" (some "e") 9 = some "array_join_total_on_scalars" := by decide
+example : Spec.checkAgainstReference "flow12" "v:[s6130]" (some "v:[s5231]") 9 = some "flow_control_leaves_enclosing_construct" := by decide
+example : Spec.checkAgainstReference "freshlit3" "v:[[#1,#1],[#1,#1]]" (some "v:[[#1],[#1]]") 9 = some "literal_creates_new_container" := by decide
+example : Spec.checkAgainstReference "literal5" "v:[false]" (some "v:[true]") 9 = some "duration_arithmetic_as_documented" := by decide
+example : Spec.checkAgainstReference "flow12" "v:[s5231]" (some "v:[s5231]") 9 = none := by decide
+example : Spec.checkAgainstReference "cbmut7" "v:[[#1,#2,#1],#3]" (some "v:[[#1,#2],#4]") 9 = some "callback_iteration_over_snapshot" := by decide
 
 end Icinga.C15.Proofs
